@@ -28,10 +28,19 @@ namespace EngineModel.Db.V2
 
 open EngineModel.Db.Chain
 
+/-- Payload of a PlaylistEntity row: the track id and the database it lives in.  `uuid = 0` stands for the
+library's own database uuid (what `Information.uuid` holds), any other value for a foreign database (a
+playlist may reference tracks on another drive; the tie maps the tags to fixed synthetic uuid strings).
+An entry's identity — and the schema's UNIQUE constraint — is (listId, databaseUuid, trackId). -/
+structure Ent where
+  track : Int
+  uuid : Int
+  deriving Repr, DecidableEq, Inhabited
+
 structure Db where
   pl : Table Bytes          -- Playlist: id, key = parentListId, next = nextListId, val = title
   plSeq : Int               -- sqlite_sequence['Playlist']
-  pe : Table Int            -- PlaylistEntity: id, key = listId, next = nextEntityId, val = trackId
+  pe : Table Ent            -- PlaylistEntity: id, key = listId, next = nextEntityId, val = (trackId, databaseUuid)
   peSeq : Int
   tracks : List Int         -- Track.id
   trSeq : Int
@@ -53,7 +62,7 @@ inductive Op where
   | removeTrackFrom (c t : Int)
   | clearTracks (c : Int)
   -- table level (playlist_entity_table)
-  | peAddBack (l t : Int) (throwIfDup : Bool)
+  | peAddBack (l t u : Int) (throwIfDup : Bool)
   | peRemove (l e : Int)
   | peClear (l : Int)
   deriving Repr, DecidableEq, Inhabited
@@ -121,18 +130,25 @@ def plUpdate (d : Db) (i : Int) (title : Bytes) (parent next : Int) : Db × Res 
         if titleClash d.pl i parent title then (d, .throw .sqlite_error)
         else ({ d with pl := move d.pl i old.key old.next parent next title }, .ok none)
 
-def fires (r : Row Int) : Bool := r.val > 0
+def fires (r : Row Ent) : Bool := r.val.track > 0
 
-/-- playlist_entity_table::get(list, track): the callback overwrites `result`. -/
-def peGet (d : Db) (l t : Int) : Option (Row Int) := (d.pe.filter (fun r => r.key == l && r.val == t)).getLast?
+/-- playlist_entity_table::get(list, track) — `WHERE listId = ? AND trackId = ?`, whatever the database uuid;
+the callback overwrites `result`. -/
+def peGet (d : Db) (l t : Int) : Option (Row Ent) :=
+  (d.pe.filter (fun r => r.key == l && r.val.track == t)).getLast?
+
+/-- add_back's own duplicate test — `WHERE listId = ? AND trackId = ? AND databaseUuid = ?`; the callback
+overwrites `existing_id`. -/
+def peFind (d : Db) (l t u : Int) : Option (Row Ent) :=
+  (d.pe.filter (fun r => r.key == l && r.val.track == t && r.val.uuid == u)).getLast?
 
 /-- playlist_entity_table::add_back -/
-def peAddBack (d : Db) (l t : Int) (throwIfDup : Bool) : Db × Res Out :=
-  match peGet d l t with
+def peAddBack (d : Db) (l t u : Int) (throwIfDup : Bool) : Db × Res Out :=
+  match peFind d l t u with
   | some e => if throwIfDup then (d, .throw .invalid_argument) else (d, .ok (some e.id))
   | none =>
     let i := d.peSeq + 1
-    ({ d with pe := appendBack d.pe i l t, peSeq := i }, .ok (some i))
+    ({ d with pe := appendBack d.pe i l ⟨t, u⟩, peSeq := i }, .ok (some i))
 
 /-- playlist_table::remove (after its existence test): one transaction — entities of the crate and of its
 descendants, then the rows themselves (the first DELETE fires the trigger that
@@ -203,7 +219,7 @@ def step (d : Db) : Op → Db × Res Out
   -- (which throws when there is no such track: everything is rolled back)
   | .removeTrack t =>
     let pe := (ids d.pl).foldl (fun pe l =>
-      match (pe.filter (fun r => r.key == l && r.val == t)).getLast? with
+      match (pe.filter (fun r => r.key == l && r.val.track == t)).getLast? with
       | some e => deleteKeyed fires pe l e.id
       | none => pe) d.pe
     if d.tracks.contains t then ({ d with pe := pe, tracks := d.tracks.filter (· != t) }, .ok none)
@@ -212,7 +228,7 @@ def step (d : Db) : Op → Db × Res Out
   | .addTrack c t =>
     if !plExists d c then (d, .throw (exn "crate_deleted"))
     else if !d.tracks.contains t then (d, .throw (exn "track_deleted"))
-    else peAddBack d c t false
+    else peAddBack d c t 0 false        -- the row carries library_->information().get().uuid
   -- crate_impl::remove_track
   | .removeTrackFrom c t =>
     match peGet d c t with
@@ -220,7 +236,7 @@ def step (d : Db) : Op → Db × Res Out
     | none => (d, .ok none)
   -- crate_impl::clear_tracks
   | .clearTracks c => ({ d with pe := clearKey fires d.pe c }, .ok none)
-  | .peAddBack l t f => peAddBack d l t f
+  | .peAddBack l t u f => peAddBack d l t u f
   | .peRemove l e =>
     -- playlist_entity_table::remove: rows_modified() == 0 → invalid_argument (nothing was deleted, no trigger fired)
     if ((rowsOf d.pe l).find? (·.id == e)).isNone then (d, .throw .invalid_argument)
@@ -258,10 +274,10 @@ def qByName (d : Db) (n : Bytes) : List Int := (d.pl.filter (·.val == n)).map (
 /-- database::root_crate_by_name / crate::sub_crate_by_name (parent 0 = root) -/
 def qByParentName (d : Db) (p : Int) (n : Bytes) : Option Int := findId d p n
 /-- crate::tracks (ordered): playlist_entity_table::track_ids -/
-def qTracks (d : Db) (c : Int) : Res (List Int) := (walkBack d.pe c).bind fun l => .ok (l.map (·.val))
-/-- playlist_entity_table::get_for_list as (entity id, track id) pairs -/
-def qEntities (d : Db) (l : Int) : Res (List (Int × Int)) :=
-  (walkBack d.pe l).bind fun rows => .ok (rows.map fun r => (r.id, r.val))
+def qTracks (d : Db) (c : Int) : Res (List Int) := (walkBack d.pe c).bind fun l => .ok (l.map (·.val.track))
+/-- playlist_entity_table::get_for_list as (entity id, track id, database uuid tag) -/
+def qEntities (d : Db) (l : Int) : Res (List (Int × Int × Int)) :=
+  (walkBack d.pe l).bind fun rows => .ok (rows.map fun r => (r.id, r.val.track, r.val.uuid))
 /-- database::tracks -/
 def qAllTracks (d : Db) : List Int := d.tracks
 
